@@ -181,9 +181,10 @@ var shimPlan = map[string][]string{
 	"pkg/io":      {"os"},
 	"pkg/exec":    {"os", "math/rand"},
 	"stdlib/file": {"os"},
+	"pkg/server":  {"os", "os/exec", "net", "time", "log", "os/signal", "syscall", "math/rand"},
 }
 
-var yieldPlan = map[string]bool{}
+var yieldPlan = map[string]bool{"pkg/server": true}
 var t4Plan = map[string]bool{}
 
 // ---------------------------------------------------------------- check
